@@ -136,9 +136,16 @@ func (t *Transport) DialPeer(ctx context.Context, peerID peer.ID, as string) (li
 
 	// abort if we already have a peer with the same addr connected
 	ok, err := CheckAlreadyConnected(t, as, peerID)
-	if ok || err != nil {
-		// returns an error if already connected w/ different peer id
+	if err != nil {
+		// already connected w/ different peer id
 		return nil, false, err
+	}
+	if ok {
+		// already connected to that peer at that address: yield the existing
+		// link, so that the caller notices when it is lost and dials again.
+		if elnk, elnkOk := t.LookupLinkWithAddr(as); elnkOk {
+			return elnk, false, nil
+		}
 	}
 
 	var dl *Dialer
